@@ -36,11 +36,11 @@ Every number / table below is re-extracted from /repo on each run (tools/extract
 source constant makes this theorem (and the path theorems that `decide` the same lookups) stop compiling. -/
 
 theorem generated_constants_agree :
-    -- certificate block v1 header "<4s2H6I": "cert", major, minor, header size, flags, build, image length, count, table length
-    Gen.cbV1HeaderFormat = "<4s2H6I" ∧ Gen.cbV1HeaderWidths = [4, 2, 2, 4, 4, 4, 4, 4, 4] ∧
+    -- certificate block v1 header "<4s2H6I" (canonical spelling: one code per field): "cert", major, minor, header size, flags, build, image length, count, table length
+    Gen.cbV1HeaderFormat = "<4sHHIIIIII" ∧ Generated.RotTypes.cbV1HeaderSize = 32 ∧ Gen.cbV1HeaderWidths = [4, 2, 2, 4, 4, 4, 4, 4, 4] ∧
     Gen.cbV1Signature = [0x63, 0x65, 0x72, 0x74] ∧ Gen.cbV1Alignment = 16 ∧
     -- certificate block v2.1 header "<4s2HL": "chdr", minor, major, size
-    Gen.cbV21HeaderFormat = "<4s2HL" ∧ Gen.cbV21HeaderWidths = [4, 2, 2, 4] ∧ Gen.cbV21Magic = [0x63, 0x68, 0x64, 0x72] ∧
+    Gen.cbV21HeaderFormat = "<4sHHI" ∧ Generated.RotTypes.cbV21HeaderSize = 12 ∧ Gen.cbV21HeaderWidths = [4, 2, 2, 4] ∧ Gen.cbV21Magic = [0x63, 0x68, 0x64, 0x72] ∧
     -- RKH table geometry
     Gen.rkhtV1Slots = 4 ∧ Gen.rkhV1Size = 32 ∧ Gen.rkhtMaxKeys = 4 ∧ Gen.rsaHashName = "sha256" ∧
     -- root key record flags: written (`_calculate_flags`) and read (`parse`) at the same positions
